@@ -12,7 +12,7 @@ import math
 
 import numpy as np
 
-from glue.core import Data
+from glue.core import Data, DataCollection
 from glue.core.component import CategoricalComponent
 from glue.core.roi import (RectangularROI, EllipticalROI, CircularROI, CircularAnnulusROI, PolygonalROI,
                            RangeROI, XRangeROI, YRangeROI, CategoricalROI)
@@ -25,7 +25,11 @@ LEVEL = "exploration"
 BUDGET_S = {"quick": 35.0, "thorough": 540.0}
 RULE = ("a case is a block of instances; an instance = axis kinds (numeric|categorical)^2, 1-6 categories in default, "
         "custom-permuted or partly-absent order, label alphabets plain / prefix-sharing of different lengths / numeric, "
-        "CategoricalROI regions built from list / ndarray / object ndarray incl. narrower-than-data and integer-vs-float, 1-16 elements (numeric values at category positions, +-1e-6, half "
+        "CategoricalROI regions built from list / ndarray / object ndarray incl. narrower-than-data and integer-vs-float; numeric columns of "
+        "dtype f8 / f4 / >f8 / i1..i8 / u1 / u8 / dask; numeric axes scaled by 1e-10..1e12; region parameters as python / numpy scalars, "
+        "polygon vertices as list / array / tuple; regions brought into place by 1-5 move/rotate steps; edges at i+-1e-9, beyond the "
+        "categories, unbounded; masks via get_mask / twice / state.copy() / a Subset in a DataCollection / after a failing call; 1-16 "
+        "(sometimes 100-180) elements (numeric values at category positions, +-1e-6, half "
         "positions, NaN), a region of one class (x/y range incl. reversed, rectangle incl. rotated, circle, ellipse incl. "
         "rotated, annulus, polygon: convex / star / comb cutting each category line several times / lattice with "
         "vertices on category lines / closed or open, categorical) whose edges are swept over i, i+-1e-6, i+-0.25, "
@@ -34,7 +38,7 @@ RULE = ("a case is a block of instances; an instance = axis kinds (numeric|categ
         "classes, #categories, outcome pattern) fingerprints.")
 ASSUMPTIONS = ["the plotted position of an element on a categorical axis is the index of its label in the categories array "
                "handed to roi_to_subset_state (NaN when the label is not in it); the harness computes it from the label list",
-               "reference geometry of vf/lib_C08_geom.py; boundary band 1e-7 x extent + 1e-10; for circle / ellipse / annulus "
+               "reference geometry of vf/lib_C08_geom.py; boundary band 1e-10 x max(|positions|, extent) + 1e-13 in the unit frame (2e-6 relative when a float32 column or float32 region parameter is involved; x10 when the region was moved into place); for circle / ellipse / annulus "
                "on a mixed numeric/categorical pair additionally 1e-3 x extent (the conversion goes through the 100-vertex "
                "polygon)",
                "a CategoricalROI is a set of labels and is applied to the x attribute (documented assumption of the dispatcher); "
@@ -48,25 +52,36 @@ ANCHORS = ["glue.core.subset:roi_to_subset_state", "glue.core.roi:CategoricalROI
            "glue.core.subset:CategoricalMultiRangeSubsetState.to_mask", "glue.core.subset:RangeSubsetState.to_mask",
            "glue.core.subset:CategoricalROISubsetState.to_mask"]
 
-N_BLOCKS = {"quick": 800, "thorough": 9000}
+N_BLOCKS = {"quick": 260, "thorough": 9000}
 PER_BLOCK = 25
-TOLF, TOLA, POLY_MUL = 1e-7, 1e-10, 1e-3
-LABELS = ["a", "b", "c", "dd", "e", "ff", "g", "B", "zz"]
+TOLF, TOLA, POLY_MUL = 1e-10, 1e-13, 1e-3        # the conversions are exact comparisons: a relative 1e-9 must be resolved
+TOL32 = 2e-6                                      # float32 column or float32 region parameter: comparisons happen in float32
+MAGNITUDES = [1e-10, 1e-6, 1e6, 1e12]
+LABELS = ["a", "b", "c", "dd", "e", "ff", "g", "B", "zz", ""]
 LABELS_PREFIX = ["a", "ab", "abc", "b", "ba", "m1", "m10", "m2", "m20"]
-LABELS_NUMERIC = [1.0, 1.5, 2.0, 2.5, 3.0, 10.0]
+LABELS_NUMERIC = [0.0, 1.0, 1.5, 2.0, 2.5, 3.0, 10.0]
+CLASS_OF = {"range": "RangeROI", "rect": "RectangularROI", "circle": "CircularROI", "ellipse": "EllipticalROI",
+            "annulus": "CircularAnnulusROI", "polygon": "PolygonalROI"}
 PATHS = ["range_categorical", "range_numeric", "rect_decomposed", "categorical_roi", "polylike_both_categorical",
          "polylike_x_categorical", "polylike_y_categorical", "numeric_numeric"]
 ROI_KINDS = ["xrange", "yrange", "rect", "rect_rotated", "circle", "ellipse", "annulus", "polygon", "categorical"]
 
 
 # ---------------------------------------------------------------- generators
-def sweep(rng, ncat):
+def sweep(rng, ncat, far=False):
     """A coordinate placed relative to the integer category positions 0..ncat-1."""
     i = rng.randint(-1, ncat)
     r = rng.random()
-    if r < 0.18:
+    if r < 0.16:
         return float(i), "on_position"
-    if r < 0.40:
+    if r < 0.24:
+        # two bounds that agree to a relative 1e-9 and still separate the element at position i from its neighbourhood
+        return i + rng.choice([-1.0, 1.0]) * 1e-9 * max(1.0, abs(i)), "position_pm_1e-9"
+    if r < 0.30:
+        # far outside the category positions: below -1, above the last category, very far
+        near = [-2.0, -2.5, -7.0, ncat + 1.0, ncat + 1.5, ncat + 9.0]
+        return rng.choice(near + ([-1e6, 1e6, -1e12, 1e12] if far else [])), "beyond_categories"
+    if r < 0.42:
         return i + rng.choice([-1e-6, 1e-6]), "position_pm_1e-6"
     if r < 0.58:
         return i + rng.choice([-0.5, 0.5]), "half_position"
@@ -78,14 +93,18 @@ def sweep(rng, ncat):
 def gen_axis(rng, kind, n, ncat):
     """Returns dict(kind, values|labels, categories(list|None), order)."""
     if kind == "num":
+        dtype = rng.choice(["<f8", "<f8", "<f8", "<f4", ">f8", "i1", "u1", "i2", "<i4", "<i8", "u8", "dask_f8"])
         vals = []
         for _ in range(n):
             r = rng.random()
-            if r < 0.12:
+            if dtype[-2] in "iu" and dtype != "dask_f8":
+                lo = 0 if dtype[0] == "u" else -3
+                vals.append(float(rng.randint(lo, ncat + 2)))
+            elif r < 0.12:
                 vals.append(float("nan"))
             else:
                 vals.append(sweep(rng, ncat)[0])
-        return {"kind": "num", "values": vals}
+        return {"kind": "num", "values": vals, "dtype": dtype}
     # label alphabets: plain; labels of different lengths that share prefixes ('a' / 'ab' / 'abc', 'm1' / 'm10'); numeric labels
     # (1 / 1.5 / 2 ...) so that a region given by integer labels meets float-valued data
     alphabet = rng.choice(["plain", "plain", "prefix", "prefix", "numeric"])
@@ -101,7 +120,7 @@ def gen_axis(rng, kind, n, ncat):
         cats = list(pool)
         rng.shuffle(cats)
     elif order == "custom_with_absent_categories":
-        used = pool[:max(1, ncat - rng.randint(1, 2))]
+        used = rng.sample(pool, rng.randint(1, max(1, ncat - 1)))          # any non-empty subset of the categories is present
         labels = [rng.choice(used) for _ in range(n)]
         cats = list(pool)
         rng.shuffle(cats)
@@ -121,7 +140,13 @@ def gen_axis(rng, kind, n, ncat):
 
 def make_column(d, name, ax):
     if ax["kind"] == "num":
-        d.add_component(np.array(ax["values"], dtype=float), name)
+        arr = np.array(ax["stored"], dtype=float)
+        if ax["dtype"] == "dask_f8":
+            import dask.array as da
+            arr = da.from_array(arr, chunks=max(1, len(arr) // 3 + 1))
+        else:
+            arr = arr.astype(ax["dtype"])
+        d.add_component(arr, name)
     else:
         cats = None if ax["categories"] is None else np.array(ax["categories"])
         d.add_component(CategoricalComponent(np.array(ax["labels"]), categories=cats), name)
@@ -130,7 +155,8 @@ def make_column(d, name, ax):
 def positions(ax):
     """Plotted positions and the categories array order, computed without glue."""
     if ax["kind"] == "num":
-        return np.array(ax["values"], dtype=float), None
+        # positions in the unit frame: what is stored (after the dtype cast), divided by the axis factor
+        return np.array(ax["stored"], dtype=float) / ax["f"], None
     cats = ax["categories"]
     if cats is None:
         cats = sorted(set(ax["labels"]))
@@ -140,8 +166,9 @@ def positions(ax):
 
 def gen_roi(rng, kind, ncx, ncy, xk, yk):
     """Descriptor in plotted coordinates + meta; None when the combination is not generated."""
-    sx = lambda: sweep(rng, ncx)
-    sy = lambda: sweep(rng, ncy)
+    far = kind in ("xrange", "yrange", "rect")          # very distant edges only where edges are compared one by one
+    sx = lambda: sweep(rng, ncx, far)
+    sy = lambda: sweep(rng, ncy, far)
     edge = []
     if kind in ("xrange", "yrange"):
         s = sx if kind == "xrange" else sy
@@ -236,24 +263,140 @@ def gen_roi(rng, kind, ncx, ncy, xk, yk):
     raise ValueError(kind)
 
 
-def build_roi(desc):
+PARAM_KEYS = ("lo", "hi", "xmin", "xmax", "ymin", "ymax", "theta", "xc", "yc", "r", "rx", "ry", "ri", "ro")
+
+
+def retype(desc, ptype):
+    """The descriptor with the values the typed parameters really have (float32 rounds), and a converter for them."""
+    if ptype == "np_float32":
+        desc = dict(desc)
+        for q in PARAM_KEYS:
+            if q in desc:
+                desc[q] = float(np.float32(desc[q]))
+        conv = np.float32
+    elif ptype == "np_float64":
+        conv = np.float64
+    elif ptype == "int_where_integral":
+        conv = lambda v: (int(v) if float(v).is_integer() and abs(v) < 1e15 else v)
+    elif ptype == "np_int_where_integral":
+        conv = lambda v: (np.int64(v) if float(v).is_integer() and abs(v) < 1e15 else np.float64(v))
+    else:
+        conv = lambda v: v
+    return desc, conv
+
+
+def build_roi(desc, conv=lambda v: v, vertices="list"):
     k = desc["k"]
+    c = conv
     if k == "range":
         if desc["cls"] == "XRangeROI":
-            return XRangeROI(desc["lo"], desc["hi"])
+            return XRangeROI(c(desc["lo"]), c(desc["hi"]))
         if desc["cls"] == "YRangeROI":
-            return YRangeROI(desc["lo"], desc["hi"])
-        return RangeROI(desc["ori"], desc["lo"], desc["hi"])
+            return YRangeROI(c(desc["lo"]), c(desc["hi"]))
+        return RangeROI(desc["ori"], c(desc["lo"]), c(desc["hi"]))
     if k == "rect":
-        return RectangularROI(desc["xmin"], desc["xmax"], desc["ymin"], desc["ymax"], desc["theta"])
+        return RectangularROI(c(desc["xmin"]), c(desc["xmax"]), c(desc["ymin"]), c(desc["ymax"]), c(desc["theta"]))
     if k == "circle":
-        return CircularROI(desc["xc"], desc["yc"], desc["r"])
+        return CircularROI(c(desc["xc"]), c(desc["yc"]), c(desc["r"]))
     if k == "ellipse":
-        return EllipticalROI(desc["xc"], desc["yc"], desc["rx"], desc["ry"], desc["theta"])
+        return EllipticalROI(c(desc["xc"]), c(desc["yc"]), c(desc["rx"]), c(desc["ry"]), c(desc["theta"]))
     if k == "annulus":
         return CircularAnnulusROI(desc["xc"], desc["yc"], desc["ri"], desc["ro"])
     if k == "polygon":
+        if vertices == "ndarray":
+            return PolygonalROI(np.array(desc["vx"]), np.array(desc["vy"]))
+        if vertices == "tuple":
+            return PolygonalROI(tuple(desc["vx"]), tuple(desc["vy"]))
         return PolygonalROI(list(desc["vx"]), list(desc["vy"]))
+    raise ValueError(k)
+
+
+def scalable(desc):
+    """Region classes that are closed under independent scaling of the two axes."""
+    k = desc["k"]
+    return k in ("range", "polygon", "categorical") or (k in ("rect", "ellipse") and desc["theta"] == 0.0)
+
+
+def scale_xy(desc, fx, fy):
+    d = dict(desc)
+    k = d["k"]
+    if k == "range":
+        f = fx if d["ori"] == "x" else fy
+        d["lo"], d["hi"] = d["lo"] * f, d["hi"] * f
+    elif k == "rect":
+        d["xmin"], d["xmax"], d["ymin"], d["ymax"] = d["xmin"] * fx, d["xmax"] * fx, d["ymin"] * fy, d["ymax"] * fy
+    elif k == "ellipse":
+        d["xc"], d["rx"], d["yc"], d["ry"] = d["xc"] * fx, d["rx"] * fx, d["yc"] * fy, d["ry"] * fy
+    elif k == "polygon":
+        d["vx"], d["vy"] = [v * fx for v in d["vx"]], [v * fy for v in d["vy"]]
+    return d
+
+
+def with_prehistory(rng, desc, conv, vertices, ctx):
+    """Builds the region somewhere else / at another angle and brings it to `desc` by 1-4 move_to / rotate_to / rotate_by
+    steps (several successive steps, there-and-back, the same step twice).  Returns (roi, number of steps)."""
+    k = desc["k"]
+    steps = 0
+    off = lambda: round(rng.uniform(-3, 3), 2)
+    if k == "range":
+        ox = off()
+        roi = build_roi(dict(desc, lo=desc["lo"] + ox, hi=desc["hi"] + ox), conv)
+        target = (desc["lo"] + desc["hi"]) / 2.0
+        if rng.random() < 0.5:
+            roi.move_to(off())
+            steps += 1
+        roi.move_to(target)
+        if rng.random() < 0.3:
+            roi.move_to(target)                      # the same step twice
+            steps += 1
+        return roi, steps + 1
+    if k in ("rect", "ellipse", "circle", "annulus"):
+        ox, oy = off(), off()
+        d0 = dict(desc)
+        for q in ("xmin", "xmax", "xc"):
+            if q in d0:
+                d0[q] = d0[q] + ox
+        for q in ("ymin", "ymax", "yc"):
+            if q in d0:
+                d0[q] = d0[q] + oy
+        if "theta" in d0:
+            d0["theta"] = round(rng.uniform(-3, 3), 2)
+        roi = build_roi(d0, conv)
+        cx, cy = G.centre_of(desc)
+        for _ in range(rng.randint(0, 2)):
+            if "theta" in d0 and rng.random() < 0.5:
+                if rng.random() < 0.5:
+                    roi.rotate_to(round(rng.uniform(-3, 3), 2))
+                else:
+                    roi.rotate_by(round(rng.uniform(-3, 3), 2))
+            else:
+                roi.move_to(off(), off())
+            steps += 1
+        roi.move_to(cx, cy)
+        steps += 1
+        if "theta" in d0:
+            roi.rotate_to(desc["theta"])
+            steps += 1
+        if rng.random() < 0.3:
+            roi.move_to(cx, cy)
+            steps += 1
+        return roi, steps
+    if k == "polygon":
+        ox, oy = off(), off()
+        roi = build_roi(dict(desc, vx=[v + ox for v in desc["vx"]], vy=[v + oy for v in desc["vy"]]), conv, vertices)
+        a = round(rng.uniform(-3, 3), 2)
+        c0 = roi.center()
+        if rng.random() < 0.6:
+            roi.rotate_to(a)                         # there ...
+            steps += 1
+        if rng.random() < 0.5:
+            roi.move_to(off(), off())
+            steps += 1
+        if roi.theta != 0:
+            roi.rotate_to(0.0)                       # ... and back (rotation about the centre commutes with the moves)
+            steps += 1
+        roi.move_to(float(c0[0]) - ox, float(c0[1]) - oy)
+        return roi, steps + 1
     raise ValueError(k)
 
 
@@ -273,44 +416,41 @@ def dispatch_path(rk, desc, xk, yk):
 
 
 # ---------------------------------------------------------------- one instance
+def store(ax, f):
+    """Fixes the axis factor and what is really stored in the column (after the dtype cast)."""
+    ax["f"] = f
+    if ax["kind"] != "num":
+        return
+    vals = [v * f for v in ax["values"]]
+    if ax["dtype"] == "<f4":
+        vals = [float(np.float32(v)) for v in vals]
+    ax["stored"] = vals
+
+
 def run_instance(ctx, forced_kind=None):
     rng = ctx.rng
     xk, yk = rng.choice(["num", "cat"]), rng.choice(["num", "cat"])
     rk = forced_kind or rng.choice(ROI_KINDS)
     if rk == "categorical":
         xk = "cat"
-    n = rng.randint(1, 16)
+    n = rng.randint(1, 16) if rng.random() < 0.96 else rng.randint(100, 180)     # >= 100 rows with duplicates now and then
     ncx, ncy = rng.randint(1, 6), rng.randint(1, 6)
     ax = gen_axis(rng, xk, n, ncx)
     ay = gen_axis(rng, yk, n, ncy)
-    px, xcats = positions(ax)
-    py, ycats = positions(ay)
+    for a_ in (ax, ay):
+        a_["f"] = 1.0
+        if a_["kind"] == "num":
+            a_["stored"] = a_["values"]
+    xcats, ycats = positions(ax)[1], positions(ay)[1]
     if xcats is not None:
         ncx = len(xcats)
     if ycats is not None:
         ncy = len(ycats)
-
-    d = Data(label="d")
-    make_column(d, "x", ax)
-    make_column(d, "y", ay)
-    xa, ya = d.id["x"], d.id["y"]
-    x_categories = d.get_component(xa).categories if xk == "cat" else None
-    y_categories = d.get_component(ya).categories if yk == "cat" else None
     kinds = {"x_kind": xk, "y_kind": yk}
     orders = {"x_order": ax.get("order", "numeric"), "y_order": ay.get("order", "numeric")}
 
-    # the harness's positions must be the positions glue plots (codes) - otherwise the comparison is meaningless
-    for name, comp_att, pos, cats, cat_arr in (("x", xa, px, xcats, x_categories), ("y", ya, py, ycats, y_categories)):
-        if cats is None:
-            continue
-        ctx.count("category_code_comparisons")
-        codes = np.asarray(d.get_component(comp_att).codes, dtype=float)
-        if list(cat_arr) != list(cats) or not np.array_equal(codes, pos, equal_nan=True):
-            ctx.violation({"kind": "category_codes_mismatch", "order": orders[name + "_order"]},
-                          {"labels": (ax if name == "x" else ay)["labels"], "categories": cats, "glue_categories": list(cat_arr),
-                           "codes": codes, "expected": pos})
-            return
-
+    # ---- the region, in the unit frame (category positions 0..n-1 on categorical axes)
+    ptype, vertices, prehistory = "python", "list", False
     if rk == "categorical":
         numeric = ax["alphabet"] == "numeric"
         how = rng.choice(["any", "any", "narrow", "narrow"])
@@ -335,7 +475,6 @@ def run_instance(ctx, forced_kind=None):
             arg = np.array(chosen)
         else:
             arg = np.array(chosen, dtype=object)
-        roi = CategoricalROI(arg)
         desc = {"k": "categorical", "categories": chosen, "container": container}
         meta = {"variant": "empty" if not chosen else how, "edges": []}
         ctx.count("categorical_roi_container:" + container)
@@ -343,24 +482,108 @@ def run_instance(ctx, forced_kind=None):
             ctx.count("categorical_roi_narrower_than_data_labels")
         if numeric and chosen:
             ctx.count("categorical_roi_integer_labels_on_float_data")
+    else:
+        desc, meta = gen_roi(rng, rk, ncx, ncy, xk, yk)
+        if desc["k"] == "range" and rng.random() < 0.06:
+            # a bound beyond every machine integer: "everything above / below"
+            which = rng.choice(["lo", "hi"])
+            desc[which] = {"lo": rng.choice([-float("inf"), -1e300]), "hi": rng.choice([float("inf"), 1e300])}[which]
+            meta["edges"] = meta["edges"] + ["unbounded"]
+            meta["variant"] = "unbounded"
+        if desc["k"] != "annulus" and rng.random() < 0.4:
+            ptype = rng.choice(["np_float64", "np_float32", "int_where_integral", "np_int_where_integral"])
+        if meta["variant"] == "unbounded" and ptype == "np_float32":
+            ptype = "np_float64"
+        vertices = rng.choice(["list", "list", "ndarray", "tuple"])
+        small = any(a_["kind"] == "num" and a_["dtype"] in ("i1", "u1", "i2", "u8") for a_ in (ax, ay))
+        if small and ptype in ("int_where_integral", "np_int_where_integral"):
+            # integer region parameters on narrow / unsigned integer columns wrap around inside Roi.contains: that is C08's
+            # finding C08-integer-points-integer-parameters, not a conversion matter
+            ptype = "np_float64"
+            ctx.count("integer_parameters_on_narrow_integer_columns_left_to_C08")
+    desc, conv = retype(desc, ptype)
+
+    # ---- magnitude classes of the numeric axes: the real objects live in a frame scaled by (fx, fy); the reference works
+    # in the unit frame (scaling an axis is a bijection that preserves containment)
+    fx = fy = 1.0
+    plain_float = lambda a_: a_["kind"] == "num" and a_["dtype"] in ("<f8", ">f8", "<f4", "dask_f8")
+    # (numpy integer parameters are not combined with large factors: radius ** 2 overflows int64 - see notes)
+    if scalable(desc) and ptype not in ("np_float32", "np_int_where_integral") and meta["variant"] != "unbounded" and rng.random() < 0.3:
+        if plain_float(ax):
+            fx = rng.choice(MAGNITUDES)
+        if plain_float(ay) and rng.random() < 0.7:
+            fy = rng.choice(MAGNITUDES)
+    store(ax, fx)
+    store(ay, fy)
+    px, _ = positions(ax)
+    py, _ = positions(ay)
+
+    d = Data(label="d")
+    make_column(d, "x", ax)
+    make_column(d, "y", ay)
+    xa, ya = d.id["x"], d.id["y"]
+    x_categories = d.get_component(xa).categories if xk == "cat" else None
+    y_categories = d.get_component(ya).categories if yk == "cat" else None
+
+    # the harness's positions must be the positions glue plots (codes) - otherwise the comparison is meaningless
+    for name, comp_att, pos, cats, cat_arr in (("x", xa, px, xcats, x_categories), ("y", ya, py, ycats, y_categories)):
+        if cats is None:
+            continue
+        ctx.count("category_code_comparisons")
+        codes = np.asarray(d.get_component(comp_att).codes, dtype=float)
+        if list(cat_arr) != list(cats) or not np.array_equal(codes, pos, equal_nan=True):
+            ctx.violation({"kind": "category_codes_mismatch", "order": orders[name + "_order"]},
+                          {"labels": (ax if name == "x" else ay)["labels"], "categories": cats, "glue_categories": list(cat_arr),
+                           "codes": codes, "expected": pos})
+            return
+
+    path = dispatch_path(rk, desc, xk, yk)
+    rotated = bool(desc.get("theta", 0.0) % math.pi != 0.0) if "theta" in desc else False
+    magnitude = sorted(set("%g" % f for f in (fx, fy) if f != 1.0))
+    dtypes = sorted(set(a_["dtype"] for a_ in (ax, ay) if a_["kind"] == "num" and a_["dtype"] != "<f8"))
+    detail = lambda **kw: dict({"roi": desc, "meta": meta, "x": ax, "y": ay, "param_type": ptype, "vertices": vertices}, **kw)
+    sig_base = dict(kinds, path=path, rotated=rotated, param_type=ptype, axis_factors=magnitude, numeric_dtypes=dtypes)
+    if rk == "categorical":
+        roi = CategoricalROI(arg)
         member = set(chosen)
         inside = np.array([l in member for l in ax["labels"]], dtype=bool)
         band = np.zeros(n, dtype=bool)
         mul = 0.0
     else:
-        desc, meta = gen_roi(rng, rk, ncx, ncy, xk, yk)
-        roi = build_roi(desc)
+        real = scale_xy(desc, fx, fy)
+        try:
+            area_ok = desc["k"] != "polygon" or abs(G.poly_signed_area(desc["vx"], desc["vy"])) >= 1e-2
+            # (a region with edges at 1e6 .. 1e12 cannot be moved without losing its near edges to rounding: not moved)
+            if fx == fy == 1.0 and meta["variant"] != "unbounded" and area_ok and G.magnitude_of(desc) < 50 and rng.random() < 0.3:
+                roi, nsteps = with_prehistory(rng, real, conv, vertices, ctx)
+                prehistory = True
+                ctx.count("regions_brought_into_place_by_move_rotate")
+                ctx.count("prehistory_steps", nsteps)
+            else:
+                roi = build_roi(real, conv, vertices)
+        except Exception as exc:
+            ctx.violation(dict(sig_base, roi=CLASS_OF[desc["k"]], kind="exception", stage="build_or_move_region", exc=type(exc).__name__),
+                          detail(error=repr(exc)[:300]))
+            return
         mul = 0.0
-    path = dispatch_path(rk, desc, xk, yk)
     cname = type(roi).__name__
-    rotated = bool(desc.get("theta", 0.0) % math.pi != 0.0) if "theta" in desc else False
-    sig_base = dict(kinds, path=path, roi=cname, rotated=rotated)
-    detail = lambda **kw: dict({"roi": desc, "meta": meta, "x": ax, "y": ay}, **kw)
+    sig_base = dict(sig_base, roi=cname, moved_before=prehistory)
 
     if rk != "categorical":
         if path in ("polylike_x_categorical", "polylike_y_categorical") and desc["k"] in ("circle", "ellipse", "annulus"):
             mul = POLY_MUL
-        add = TOLF * G.scale_of(desc) + TOLA
+        if path in ("polylike_x_categorical", "polylike_y_categorical") and desc["k"] == "rect":
+            mul = 0.0
+        finite = np.concatenate([px[np.isfinite(px)], py[np.isfinite(py)], [1.0]])
+        posmag = float(np.abs(finite).max())
+        # the conversion compares exactly; the margin only has to absorb rounding of positions of this magnitude
+        add = TOLF * max(posmag, min(G.scale_of(desc), 100.0) if meta["variant"] != "unbounded" else 1.0) + TOLA
+        if prehistory:
+            add = add * 10 + 1e-12
+        single = ptype == "np_float32" or any(a_["kind"] == "num" and a_["dtype"] == "<f4" for a_ in (ax, ay))
+        if single:
+            add = max(add, TOL32 * max(posmag, min(G.scale_of(desc), 100.0) if meta["variant"] != "unbounded" else 1.0))
+            ctx.count("instances_with_single_precision_band")
         if desc["k"] == "range":
             # a range only constrains its own axis; whether an element that cannot be plotted on the other axis (NaN) is
             # "in the region" is not settled by the statement: such elements are excluded and counted
@@ -373,18 +596,60 @@ def run_instance(ctx, forced_kind=None):
         else:
             inside, band = G.classify(desc, px, py, mul=mul, add=add)
 
+    # ---- conversion and evaluation, through one of several routes
+    via = rng.choice(["get_mask", "get_mask", "get_mask_twice", "state_copy", "subset_in_collection", "fault_first"])
     try:
         state = roi_to_subset_state(roi, x_att=xa, y_att=ya, x_categories=x_categories, y_categories=y_categories)
     except Exception as exc:
-        ctx.violation(dict(sig_base, kind="exception", stage="roi_to_subset_state", exc=type(exc).__name__), detail(error=repr(exc)[:300]))
+        ctx.violation(dict(sig_base, kind="exception", stage="roi_to_subset_state", exc=type(exc).__name__,
+                           edge_classes=sorted(set(meta["edges"]))), detail(error=repr(exc)[:300]))
         return
     try:
-        got = np.asarray(d.get_mask(state))
+        if via == "fault_first":
+            # a failing call on the same objects first: a selection over a foreign attribute
+            foreign = Data(q=[1.0, 2.0], label="foreign")
+            try:
+                d.get_mask(roi_to_subset_state(XRangeROI(0, 1), x_att=foreign.id["q"], y_att=ya, y_categories=y_categories))
+                ctx.count("fault_call_did_not_raise")
+            except Exception:
+                ctx.count("fault_calls_raised")
+            got = np.asarray(d.get_mask(state))
+        elif via == "get_mask_twice":
+            first = np.asarray(d.get_mask(state)).copy()
+            got = np.asarray(d.get_mask(state))
+            if not np.array_equal(first, got):
+                ctx.violation(dict(sig_base, kind="second_evaluation_differs", state=type(state).__name__), detail(first=first, second=got))
+                return
+        elif via == "state_copy":
+            got = np.asarray(d.get_mask(state.copy()))
+        elif via == "subset_in_collection":
+            dc = DataCollection([d])
+            dc.new_subset_group(subset_state=state, label="s")
+            got = np.asarray(d.subsets[0].to_mask())
+        else:
+            got = np.asarray(d.get_mask(state))
     except Exception as exc:
-        ctx.violation(dict(sig_base, kind="exception", stage="get_mask", exc=type(exc).__name__, state=type(state).__name__),
+        ctx.violation(dict(sig_base, kind="exception", stage="get_mask", via=via, exc=type(exc).__name__, state=type(state).__name__),
                       detail(error=repr(exc)[:300]))
         return
+    got = got.view(np.ndarray)
 
+    ctx.count("via:" + via)
+    ctx.count("param_type:" + ptype)
+    if desc["k"] == "polygon":
+        ctx.count("polygon_vertices:" + vertices)
+    for f in (fx, fy):
+        if f != 1.0:
+            ctx.count("axis_factor:%g" % f)
+    for a_ in (ax, ay):
+        if a_["kind"] == "num":
+            ctx.count("numeric_dtype:" + a_["dtype"])
+    if n >= 100:
+        ctx.count("tables_with_100_or_more_rows")
+    if xk == "cat" and yk == "cat" and ncx != ncy:
+        ctx.count("both_categorical_unequal_category_counts")
+        if path == "polylike_both_categorical":
+            ctx.count("polylike_both_categorical_unequal_category_counts")
     ctx.count("path:" + path)
     ctx.count("axis_kinds:%s_%s" % (xk, yk))
     ctx.count("roi:" + cname)
@@ -414,7 +679,10 @@ def run_instance(ctx, forced_kind=None):
     ctx.count("elements_in_boundary_band_excluded", int(band.sum()))
     ctx.count("elements_with_nan_position", int((~np.isfinite(px) | ~np.isfinite(py)).sum()))
     pattern = "".join("b" if b else ("1" if i else "0") for i, b in zip(inside, band))
-    ctx.evaluation([path, cname, xk, yk, orders, alphabets, meta["variant"], sorted(set(meta["edges"])), ncx, ncy, pattern],
+    if n > 40:
+        pattern = "long:%d:%d" % (int(inside.sum()), int(band.sum()))
+    ctx.evaluation([path, cname, xk, yk, orders, alphabets, meta["variant"], sorted(set(meta["edges"])), ncx, ncy, pattern,
+                    ptype, magnitude, dtypes, via, prehistory],
                    nontrivial=(0 < nin < ncmp))
     bad = (got != inside) & cmp_
     if bad.any():
@@ -427,7 +695,8 @@ def run_instance(ctx, forced_kind=None):
         except Exception:
             agrees = None
         missing, extra = bool((bad & inside).any()), bool((bad & ~inside).any())
-        sig = dict(sig_base, kind="selection_mismatch", state=type(state).__name__, variant=meta["variant"],
+        sig = dict(sig_base, kind="selection_mismatch", state=type(state).__name__, variant=meta["variant"], via=via,
+                   edge_classes=sorted(set(meta["edges"])),
                    direction="both" if missing and extra else ("missing" if missing else "extra"),
                    mask_equals_roi_contains=agrees)
         if path != "numeric_numeric":
@@ -484,6 +753,26 @@ def floors(counters, tier):
     for e in ("on_position", "position_pm_1e-6", "half_position", "vertex_on_position"):
         if g("edge_class:" + e, 0) < 100:
             out.append("fewer than 100 region edges of class %s" % e)
+    for v in ("get_mask", "get_mask_twice", "state_copy", "subset_in_collection", "fault_first"):
+        if g("via:" + v, 0) < 150:
+            out.append("fewer than 150 masks obtained via %s" % v)
+    for f in MAGNITUDES:
+        if g("axis_factor:%g" % f, 0) < 20:
+            out.append("fewer than 20 numeric axes at magnitude %g" % f)
+    for dt in ("<f8", "<f4", ">f8", "i1", "u1", "i2", "<i4", "<i8", "u8", "dask_f8"):
+        if g("numeric_dtype:" + dt, 0) < 100:
+            out.append("fewer than 100 numeric columns of dtype %s" % dt)
+    for pt in ("python", "np_float64", "np_float32", "int_where_integral", "np_int_where_integral"):
+        if g("param_type:" + pt, 0) < 80:
+            out.append("fewer than 80 regions with parameter type %s" % pt)
+    for vt in ("list", "ndarray", "tuple"):
+        if g("polygon_vertices:" + vt, 0) < 40:
+            out.append("fewer than 40 polygons with vertices given as %s" % vt)
+    for k, need in (("edge_class:position_pm_1e-9", 200), ("edge_class:beyond_categories", 150), ("edge_class:unbounded", 20),
+                    ("tables_with_100_or_more_rows", 40), ("polylike_both_categorical_unequal_category_counts", 100),
+                    ("regions_brought_into_place_by_move_rotate", 150), ("fault_calls_raised", 150)):
+        if g(k, 0) < need:
+            out.append("fewer than %d %s" % (need, k))
     ec, es = g("elements_compared", 0), g("elements_compared_selected", 0)
     if ec < 8000:
         out.append("fewer than 8000 elements compared")
